@@ -31,7 +31,6 @@
 #define UPDATE(c, d, n)	sha2_update(c, d, n)
 #define FINAL(c, dg)	sha2_final(c, dg)
 #define VF_HAS_BITS 1
-#define VF_CTX_OWNED_INIT(c)	do { (c)->block_size = (VF_BITS <= 256) ? 64 : 128; (c)->hash_size = VF_BITS / 8; } while (0)
 #elif defined(VF_ALG_GOST)
 #include "contracts/gost3411.h"
 #define CTX_T		gost3411_2012_ctx_t
@@ -57,15 +56,7 @@ void harness(void) {
 	vf_t_k = t_k; vf_d_k = d_k; vf_c_k = c_k;
 	WIPE_PTR = memset;	/* --dfcc havocs mutable statics: re-establish the initialiser */
 #endif
-#ifdef VF_CTX_OWNED
-	/* harness-owned context: arbitrary contents, but the size fields are stored as
-	 * constants so that block-size dependent loop bounds and lengths are concrete */
-	VF_NONDET_OBJ(CTX_T, ctx_obj);
-	CTX_T *ctx = &ctx_obj;
-	VF_CTX_OWNED_INIT(ctx);
-#else
 	VF_FRESH_PTR(CTX_T, ctx, sizeof(CTX_T));
-#endif
 #if defined(VF_FN_init)
 #ifdef VF_HAS_BITS
 	/* the digest size, in bits or in bytes: both spellings are accepted by the library */
